@@ -135,6 +135,10 @@ def globbed (t : Tree) (k : Key) : Bool :=
 def step1 (t : Tree) (k : Key) : Tree :=
   if isLink t k && globbed t k then upd t k none else t
 
+/-- "Remove the old symlink if dangling": `if newjobpath.is_symlink() and not newjobpath.exists(): unlink`. -/
+def rmDangling (t : Tree) (x : Key) : Tree :=
+  if isLink t x && (resolve t depth x).isNone then upd t x none else t
+
 /-- second pass, one yielded `k/params.json`. -/
 def step2 (fx cl : Bool) (t : Tree) (k : Key) : Tree :=
   match t k with
@@ -142,8 +146,7 @@ def step2 (fx cl : Bool) (t : Tree) (k : Key) : Tree :=
     if nk.2 = k.2 then t                                     -- `new_identifier != old_identifier`
     else if !fx then t
     else
-      -- "Remove the old symlink if dangling"
-      let t1 := if isLink t nk && (resolve t depth nk).isNone then upd t nk none else t
+      let t1 := rmDangling t nk
       match resolve t1 depth nk with
       | some _ => t1                                         -- exists: same target, or a warning
       | none =>
@@ -151,9 +154,12 @@ def step2 (fx cl : Bool) (t : Tree) (k : Key) : Tree :=
         else upd t1 nk (some (.link k))                              -- `newjobpath.symlink_to(oldjobpath)`
   | _ => t                                                   -- symlink (skipped), unloadable, or gone
 
+/-- the first pass as a whole -/
+def phase1 (cl : Bool) (ks1 : List Key) (t : Tree) : Tree := if cl then ks1.foldl step1 t else t
+
 /-- `fix_deprecated(workpath, fix, cleanup)`; `ks1`, `ks2` are what the two (lazy) `glob` calls yield. -/
 def fixTree (fx cl : Bool) (ks1 ks2 : List Key) (t : Tree) : Tree :=
-  ks2.foldl (step2 fx cl) (if cl then ks1.foldl step1 t else t)
+  ks2.foldl (step2 fx cl) (phase1 cl ks1 t)
 
 /-- the documented behaviour of the command line (`deprecated list`): "Ignoring --cleanup since we are
     not fixing old IDs". -/
